@@ -18,44 +18,44 @@ theorem guards_context_to_ms : Generated.guardContextToMs =
     [
      ("guard_to_ms_samples", []),
      ("guard_to_ms_structure", []),
-     ("guard_to_ms_no_samples", ["if num_demes > 1"]),
+     ("guard_to_ms_no_samples", ["if v1 > 1"]),
      ("guard_to_ms_size_function", ["FunctionDef"]),
      ("guard_to_ms_sizes_differ", ["FunctionDef"]),
-     ("guard_to_ms_size_change", ["for (j, deme) in enumerate(graph.demes, 1)", "for epoch in reversed(deme.epochs)"]),
-     ("guard_to_ms_last_ancestor", ["for deme_or_pulse in demes_and_pulses", "if isinstance(deme_or_pulse, demes.Deme)", "for (k, ancestor) in enumerate(deme.ancestors)"]),
-     ("guard_to_ms_multi_source", ["for deme_or_pulse in demes_and_pulses", "else of if isinstance(deme_or_pulse, demes.Deme)"]),
-     ("guard_to_ms_migration_off", ["for migration in graph.migrations"])] := by decide +kernel
+     ("guard_to_ms_size_change", ["for (v6, v7) in enumerate(graph.demes, 1)", "for v10 in reversed(v7.epochs)"]),
+     ("guard_to_ms_last_ancestor", ["for v14 in v12", "if isinstance(v14, demes.Deme)", "for (v15, v16) in enumerate(v7.ancestors)"]),
+     ("guard_to_ms_multi_source", ["for v14 in v12", "else of if isinstance(v14, demes.Deme)"]),
+     ("guard_to_ms_migration_off", ["for v23 in graph.migrations"])] := by decide +kernel
 
 theorem guards_tests_to_ms : Generated.guardTestsToMs =
     [
-     (0, "samples is not None and len(samples) != num_demes", true),
-     (1, "num_demes > 1", false),
+     (0, "samples is not None and len(samples) != v1", true),
+     (1, "v1 > 1", false),
      (2, "samples is None", false),
-     (3, "epoch.size_function not in ['constant', 'exponential']", true),
-     (4, "epoch.end_size != epoch.start_size", false),
-     (5, "size != epoch.end_size", false),
-     (6, "growth_rate != alpha", false),
-     (7, "isinstance(deme_or_pulse, demes.Deme)", false),
-     (8, "k == len(deme.ancestors) - 1", false),
-     (9, "len(pulse.sources) > 1", true),
-     (10, "not math.isinf(migration.start_time) and migration.start_time != graph[migration.dest].start_time and (migration.start_time != graph[migration.source].start_time)", false)] := by decide +kernel
+     (3, "p0.size_function not in ['constant', 'exponential']", true),
+     (4, "p0.end_size != p0.start_size", false),
+     (5, "v8 != v10.end_size", false),
+     (6, "v9 != v11", false),
+     (7, "isinstance(v14, demes.Deme)", false),
+     (8, "v15 == len(v7.ancestors) - 1", false),
+     (9, "len(v22.sources) > 1", true),
+     (10, "not math.isinf(v23.start_time) and v23.start_time != graph[v23.dest].start_time and (v23.start_time != graph[v23.source].start_time)", false)] := by decide +kernel
 
 /-! ### `get_growth_rate` -/
 
 theorem guard_to_ms_size_function_meaning (f : String) :
-    Generated.guard_to_ms_size_function (epoch_size_function := f)
+    Generated.guard_to_ms_size_function (p0_size_function := f)
       = !(decide (f = "constant") || decide (f = "exponential")) := by
   unfold Generated.guard_to_ms_size_function
   by_cases h1 : f = "constant" <;> by_cases h2 : f = "exponential" <;> simp [h1, h2]
 
 theorem guard_to_ms_sizes_differ_meaning (e s : Q) :
-    Generated.guard_to_ms_sizes_differ (epoch_end_size := .fin e) (epoch_start_size := .fin s) = decide (e ≠ s) := by
+    Generated.guard_to_ms_sizes_differ (p0_end_size := .fin e) (p0_start_size := .fin s) = decide (e ≠ s) := by
   unfold Generated.guard_to_ms_sizes_differ
   guard_close
 
 theorem guards_tie_get_growth_rate : getGrowthRate = getGrowthRateWith
-    (fun f => Generated.guard_to_ms_size_function (epoch_size_function := f))
-    (fun e s => Generated.guard_to_ms_sizes_differ (epoch_end_size := e) (epoch_start_size := s)) := by
+    (fun f => Generated.guard_to_ms_size_function (p0_size_function := f))
+    (fun e s => Generated.guard_to_ms_sizes_differ (p0_end_size := e) (p0_start_size := s)) := by
   funext N0 e
   unfold getGrowthRate getGrowthRateWith
   simp only [guard_to_ms_size_function_meaning, guard_to_ms_sizes_differ_meaning, decide_eq_true_eq]
@@ -64,12 +64,12 @@ theorem guards_tie_get_growth_rate : getGrowthRate = getGrowthRateWith
 /-! ### the size events -/
 
 theorem guard_to_ms_size_change_meaning (size e : Q) :
-    Generated.guard_to_ms_size_change (size := .fin size) (epoch_end_size := .fin e) = decide (size ≠ e) := by
+    Generated.guard_to_ms_size_change (v8 := .fin size) (v10_end_size := .fin e) = decide (size ≠ e) := by
   unfold Generated.guard_to_ms_size_change
   guard_close
 
 theorem guards_tie_deme_size_events : demeSizeEvents = demeSizeEventsWith
-    (fun s e => Generated.guard_to_ms_size_change (size := s) (epoch_end_size := e)) := by
+    (fun s e => Generated.guard_to_ms_size_change (v8 := s) (v10_end_size := e)) := by
   funext N0 j d
   unfold demeSizeEvents demeSizeEventsWith
   simp only [guard_to_ms_size_change_meaning, decide_eq_true_eq]
@@ -78,18 +78,18 @@ theorem guards_tie_deme_size_events : demeSizeEvents = demeSizeEventsWith
 /-! ### ancestry: Split / Join -/
 
 theorem guard_to_ms_last_ancestor_meaning (k n : Nat) :
-    Generated.guard_to_ms_last_ancestor (k := k) (len_deme_or_pulse_ancestors := n) = decide (k = n - 1) := by
+    Generated.guard_to_ms_last_ancestor (v15 := k) (len_v14_ancestors := n) = decide (k = n - 1) := by
   unfold Generated.guard_to_ms_last_ancestor
   grind
 
 theorem guard_to_ms_multi_source_meaning (n : Nat) :
-    Generated.guard_to_ms_multi_source (len_deme_or_pulse_sources := n) = decide (n > 1) := by
+    Generated.guard_to_ms_multi_source (len_v14_sources := n) = decide (n > 1) := by
   unfold Generated.guard_to_ms_multi_source
   grind
 
 theorem guards_tie_ancestry_events : ancestryEvents = ancestryEventsWith
-    (fun k n => Generated.guard_to_ms_last_ancestor (k := k) (len_deme_or_pulse_ancestors := n))
-    (fun n => Generated.guard_to_ms_multi_source (len_deme_or_pulse_sources := n)) := by
+    (fun k n => Generated.guard_to_ms_last_ancestor (v15 := k) (len_v14_ancestors := n))
+    (fun n => Generated.guard_to_ms_multi_source (len_v14_sources := n)) := by
   funext g xs n
   unfold ancestryEvents ancestryEventsWith
   simp only [guard_to_ms_last_ancestor_meaning, guard_to_ms_multi_source_meaning, decide_eq_true_eq]
@@ -98,15 +98,15 @@ theorem guards_tie_ancestry_events : ancestryEvents = ancestryEventsWith
 /-! ### migrations switched off at their start time -/
 
 theorem guard_to_ms_migration_off_meaning (t d s : ETime) :
-    Generated.guard_to_ms_migration_off (migration_start_time := Num.ofETime t)
-      (graph_migration_dest_start_time := Num.ofETime d) (graph_migration_source_start_time := Num.ofETime s)
+    Generated.guard_to_ms_migration_off (v23_start_time := Num.ofETime t)
+      (graph_v23_dest_start_time := Num.ofETime d) (graph_v23_source_start_time := Num.ofETime s)
       = (!t.isInf && decide (t ≠ d) && decide (t ≠ s)) := by
   unfold Generated.guard_to_ms_migration_off
   cases t <;> cases d <;> cases s <;> guard_close
 
 theorem guards_tie_migration_events : migrationEvents = migrationEventsWith
-    (fun t d s => Generated.guard_to_ms_migration_off (migration_start_time := t)
-      (graph_migration_dest_start_time := d) (graph_migration_source_start_time := s)) := by
+    (fun t d s => Generated.guard_to_ms_migration_off (v23_start_time := t)
+      (graph_v23_dest_start_time := d) (graph_v23_source_start_time := s)) := by
   funext N0 g
   unfold migrationEvents migrationEventsWith
   simp only [guard_to_ms_migration_off_meaning]
@@ -116,14 +116,14 @@ theorem guards_tie_migration_events : migrationEvents = migrationEventsWith
 
 theorem guard_to_ms_samples_meaning (samples : Option (List Int)) (n : Nat) :
     Generated.guard_to_ms_samples (samples_is_None := samples.isNone) (len_samples := (samples.map List.length).getD 0)
-      (num_demes := n) = (match samples with | some s => decide (s.length ≠ n) | none => false) := by
+      (v1 := n) = (match samples with | some s => decide (s.length ≠ n) | none => false) := by
   unfold Generated.guard_to_ms_samples
   cases samples with
   | none => simp
   | some s => by_cases h : s.length = n <;> simp [h, bne]
 
 theorem guard_to_ms_structure_meaning (n : Nat) :
-    Generated.guard_to_ms_structure (num_demes := .fin (n : Q)) = decide (n > 1) := by
+    Generated.guard_to_ms_structure (v1 := .fin (n : Q)) = decide (n > 1) := by
   unfold Generated.guard_to_ms_structure
   have h : ((1 : Q) < (n : Q)) ↔ 1 < n := by exact_mod_cast Iff.rfl
   simp [lt_fin_fin, h]
@@ -134,8 +134,8 @@ theorem guard_to_ms_no_samples_meaning (b : Bool) :
   first | rfl | simp
 
 theorem guards_tie_to_ms : toMs = toMsWith
-    (fun none len n => Generated.guard_to_ms_samples (samples_is_None := none) (len_samples := len) (num_demes := n))
-    (fun n => Generated.guard_to_ms_structure (num_demes := n))
+    (fun none len n => Generated.guard_to_ms_samples (samples_is_None := none) (len_samples := len) (v1 := n))
+    (fun n => Generated.guard_to_ms_structure (v1 := n))
     (fun none => Generated.guard_to_ms_no_samples (samples_is_None := none)) := by
   funext graph N0 samples
   unfold toMs toMsWith
